@@ -104,7 +104,7 @@ swarm_pool = /mnt/local/images/swarm
 
 
 def draw_spec(rng, n_vms=None, max_depth=4, allow_multi_producer=True, allow_removable=True, allow_permanent=False,
-              state_equals_name=False):
+              state_equals_name=False, multi_producer_share=0.35, grand_share=0.5):
     """Draw a random suite description (JSON-able)."""
     n_vms = n_vms or rng.choice([1, 2, 2, 3])
     letters = "ABCDEF"
@@ -150,14 +150,14 @@ def draw_spec(rng, n_vms=None, max_depth=4, allow_multi_producer=True, allow_rem
                 leaf["only"][vm] = rng.choice(vms[vm]["variants"])
         leaves.append(leaf)
     groups = []
-    if allow_multi_producer and len(vm_names) >= 1 and rng.random() < 0.35:
+    if allow_multi_producer and len(vm_names) >= 1 and rng.random() < multi_producer_share:
         # a group of leaf variants each producing its own state on one vm, and a dependant on the whole group (cloning)
         vm = rng.choice(vm_names)
         base = rng.choice(list(producers))
         group = {"name": "mp1", "vm": vm, "base": base, "variants": [{"name": "pa", "state": "mpst.a", "removable": rng.random() < 0.3},
                                                                        {"name": "pb", "state": "mpst.b", "removable": False}],
                  "dependant": {"name": "tdep", "sets": rng.choice(["", "depst"])},
-                 "grand": rng.random() < 0.5}
+                 "grand": rng.random() < grand_share}
         if group["grand"]:
             # only a test that saves a state can be somebody's setup
             group["dependant"]["sets"] = "depst"
